@@ -391,7 +391,8 @@ EntryCtx(f, callctx) ==      \* declared context, else the caller's, else IEEE d
     ELSE [fam |-> "efloat", es |-> 11, nbits |-> 64, inf |-> TRUE, nk |-> "ieee", eoff |-> 0,
           rm |-> "RNE", ov |-> "OVERFLOW", k |-> 0, nanv |-> <<>>, infv |-> <<>>]
 
-InitFor(p, i) ==
+\* the first state of running program p on its i-th input vector
+InitRec(p, i) ==
     LET pr == Progs[p]
         f  == pr.funcs[pr.main]
         ins == pr.inputs[i]
@@ -399,11 +400,14 @@ InitFor(p, i) ==
         Go(j, s, env) == IF j > Len(f.params) THEN [env |-> env, st |-> s]
                          ELSE LET r == Load(ins.args[j], s) IN Go(j + 1, r.st, (f.params[j] :> r.v) @@ env)
         ld == Go(1, <<>>, f.free)
+    IN  [frames |-> <<[fn |-> pr.main, env |-> ld.env, kont |-> <<[b |-> 1, i |-> 1, kind |-> "body"]>>,
+                       saved |-> RealCtx, tgt |-> [k |-> "skip"], mode |-> "top"]>>,
+         store |-> ld.st, ctx |-> EntryCtx(f, ins.ctx)]
+
+InitFor(p, i) ==
+    LET r == InitRec(p, i)
     IN  /\ pid = p /\ inp = i
-        /\ frames = <<[fn |-> pr.main, env |-> ld.env, kont |-> <<[b |-> 1, i |-> 1, kind |-> "body"]>>,
-                       saved |-> RealCtx, tgt |-> [k |-> "skip"], mode |-> "top"]>>
-        /\ store = ld.st
-        /\ ctx = EntryCtx(f, ins.ctx)
+        /\ frames = r.frames /\ store = r.store /\ ctx = r.ctx
         /\ status = "run" /\ result = NaN /\ steps = 0
 
 MInit == \E p \in 1..Len(Progs) : \E i \in 1..Len(Progs[p].inputs) : InitFor(p, i)
